@@ -109,3 +109,23 @@ Fixpoint uncles_ok_from (c : cfg) (chain : list header) (now : Z) (block_parent 
                verify_header c chain now u (Some p) (lookup_hash (h_parent p) anc) true true = Ok tt) /\
     uncles_ok_from c chain now block_parent anc (h_hash u :: seen) rest
   end.
+
+(* the uncle rules at ANY height, with the hard-coded historic exceptions explicit: while the loop counter
+   `number` is <= 15000, (a) an already-included uncle is tolerated when (block hash, uncle number) is in dup_wl,
+   (b) an uncle that is not recent is tolerated when (its parent hash, its number) is in dangling_parent_wl or
+   (its hash, its number) is in dangling_hash_wl — and then the block's uncles are accepted at once: the remaining
+   uncles are not examined *)
+Fixpoint uncles_spec (c : cfg) (chain : list header) (now : Z) (number : Z) (block_hash block_parent : bytes)
+         (anc : list (bytes * header)) (seen : list bytes) (us : list header) : Prop :=
+  match us with
+  | [] => True
+  | u :: rest =>
+    (mem_hash (h_hash u) seen = false \/ dup_allowed number block_hash (h_number u) = true) /\
+    lookup_hash (h_hash u) anc = None /\
+    (((lookup_hash (h_parent u) anc = None \/ h_parent u = block_parent) /\
+      dangling_allowed number (h_parent u) (h_hash u) (h_number u) = true)
+     \/
+     (exists p, lookup_hash (h_parent u) anc = Some p /\ h_parent u <> block_parent /\
+                verify_header c chain now u (Some p) (lookup_hash (h_parent p) anc) true true = Ok tt /\
+                uncles_spec c chain now number block_hash block_parent anc (h_hash u :: seen) rest))
+  end.
